@@ -1360,6 +1360,10 @@ class Engine:
         if callee.startswith('%'):
             fp = env[callee]
             cs = ptr_cases(fp)
+            if len(cs) == 1 and cs[0][1].obj is None:
+                # the function pointer was read through a null object (the load already carries a null-deref obligation): this path ends here
+                self.add_obl('null-deref', st, z3.BoolVal(True), 'indirect call through a null function pointer', self.where(fr, ins))
+                return ('dead',)
             if len(cs) != 1 or not isinstance(cs[0][1].obj, tuple) or cs[0][1].obj[0] != 'func':
                 raise Unsupported('indirect call through %s' % (fp,))
             name = cs[0][1].obj[1]
